@@ -780,9 +780,12 @@ def c12_scenario(rep, rng, scratch, idx):
     open(os.path.join(xdg, "git", "ignore"), "w").write("vcs_glob.x\n")
     open(os.path.join(xdg, "watchexec", "ignore"), "w").write("app_glob.x\n")
     extra = os.path.join(d, "extra.ignore")
-    open(extra, "w").write("exp_igf.x\n")
+    # the explicit ignore file has a file-name line and a line naming a directory (everything below it is ignored too)
+    open(extra, "w").write("exp_igf.x\nexpdir/\n")
+    os.makedirs(os.path.join(proj, "expdir", "deeper"), exist_ok=True)
     probes = {"vcs_proj.x": "proj_vcs", "gen_proj.x": "proj_gen", "vcs_glob.x": "glob_vcs", "app_glob.x": "glob_app",
-              "m.pyc": "default", "exp_ign.x": "explicit", "exp_igf.x": "explicit", "plain.txt": None}
+              "m.pyc": "default", "exp_ign.x": "explicit", "exp_igf.x": "explicit", "expdir/exp_inner.x": "explicit",
+              "expdir/deeper/exp_inner2.x": "explicit", "plain.txt": None}
     desc = {"kind": "c12-e2e", "flags": flags}
     out_path = os.path.join(d, "events.out")
     wx = Wx(scratch, name, flags + ["--ignore", "exp_ign.x", "--ignore-file", extra, "--debounce", "30ms"], [],
@@ -830,7 +833,7 @@ def c12_scenario(rep, rng, scratch, idx):
         rep.count("c12_e2e_probe_sets", 1)
         for f, src in probes.items():
             want_reported = True if src is None else not c12_active(src, flags)
-            got = f in seen
+            got = os.path.basename(f) in seen
             if got != want_reported:
                 if src == "explicit":
                     V.append(("C12/e2e/explicit/%s/not-honoured" % f, "production binary with %s reports %s although an explicit option ignores it" % (flags, f)))
